@@ -1,6 +1,7 @@
 """C17 — a failing command changes nothing; a read-only command changes nothing."""
 from .facts import callee
-from .lib import is_callee, switch_info
+import re
+from .lib import is_callee, switch_info, src_of_operand, TRANSPARENT
 from . import effects, lib2
 
 EXEC = "redis::executor::CommandExecutor"
@@ -27,6 +28,11 @@ def run(ck, ctx):
                      "answers an error while the commands before it have taken effect)")
     ck.assume("a variant classified read-only under *some* field condition is required to have a write-free handler "
               "(no correlation between pattern fields and handler branches)")
+    ck.rule("R17.7", "the shard router never has to undo: in ShardedActorState no function sends a shard a *mutating* command it built itself "
+                     "(LPOP, RPUSH, SET ..: a Command variant outside is_read_only) and afterwards sends another command whose reply it can "
+                     "return to the client - if the later step fails the earlier mutation has happened, and a compensating write does not restore "
+                     "the state exactly (a popped single-element list loses its key and TTL before it is pushed back). Fan-out loops that send the "
+                     "client's own command or its per-shard slices are not affected")
     for cfg in ctx.configs:
         prog = ctx.prog(cfg)
         ck.configs.append(cfg)
@@ -37,6 +43,7 @@ def run(ck, ctx):
         _r174(ck, prog, cfg)
         _r175(ck, prog, cfg, writers)
         _r176(ck, prog, cfg)
+        _r177(ck, prog, cfg)
 
 
 def read_only_variants(prog):
@@ -295,3 +302,61 @@ def _r176(ck, prog, cfg):
              "EXEC can answer an error (%s, line %s) after queued commands have been executed: the transaction is reported as refused "
              "while part of it has taken effect" % ((late[0][2], late[0][1]) if late else ("", "")), f.where(late[0][1] if late else None),
              detail="%d error sites, all before the replay" % len(effects.error_sites(f)))
+
+
+# ------------------------------------------------------------------------------------------------
+def _built_variants(f, operand, depth=0):
+    """Command variants a command operand can have been built as inside f (through multi-definition locals and closures' results)"""
+    out = set()
+    s_ = src_of_operand(f, operand, through_calls=TRANSPARENT + (r"Clone>::clone$",))
+    if s_.kind == "agg" and str(s_.rv.get("n", "")).startswith("redis::command::Command::"):
+        out.add(s_.rv["n"].rsplit("::", 1)[-1])
+    elif s_.kind in ("multi", "path") and s_.local is not None and s_.local > f.d["argc"] and depth < 3:
+        for d in f.defs().get(s_.local, []):
+            if d[2] == "assign" and d[3]["k"] == "agg" and str(d[3].get("n", "")).startswith("redis::command::Command::"):
+                out.add(d[3]["n"].rsplit("::", 1)[-1])
+            elif d[2] == "assign" and d[3]["k"] == "use" and "c" not in d[3]["a"]:
+                out |= _built_variants(f, d[3]["a"], depth + 1)
+            elif d[2] == "call":
+                out.add("?call:" + (callee(d[3]) or "").rsplit("::", 1)[-1])
+    elif s_.kind == "call":
+        out.add("?call:" + (callee(s_.term) or "").rsplit("::", 1)[-1])
+    return out
+
+
+def _r177(ck, prog, cfg):
+    ro = read_only_variants(prog)
+    n = 0
+    for f in prog.lib_fns():
+        if f.file != "src/production/sharded_actor.rs" or "ShardedActorState" not in f.id or "::tests::" in f.id:
+            continue
+        ex = [(b, t) for b, t in f.calls() if is_callee(t, r"ShardHandle::execute$") and len(t["args"]) >= 2]
+        if not ex:
+            continue
+        n += 1
+        # closures that build commands for this function (the `push` helper closure of a router arm)
+        kid_variants = set()
+        for k_ in prog.children(f):
+            for b, i, st in k_.stmts():
+                if st["rv"]["k"] == "agg" and str(st["rv"].get("n", "")).startswith("redis::command::Command::"):
+                    kid_variants.add(st["rv"]["n"].rsplit("::", 1)[-1])
+        built = {}
+        for b, t in ex:
+            vs = _built_variants(f, t["args"][1])
+            if any(v.startswith("?call:") for v in vs):
+                vs = {v for v in vs if not v.startswith("?call:")} | kid_variants
+            built[b] = vs
+        k = 0
+        for b1, t1 in ex:
+            w = sorted(v for v in built[b1] if v not in ro)
+            if not w:
+                continue
+            later = [(b2, t2) for b2, t2 in ex if b2 != b1 and b2 in f.reach([b1])]
+            for b2, t2 in later:
+                ck.bad("R17.7", "%s:write(%s)-then-send#%d%s" % (re.sub(r"::\{closure#\d+\}", "", f.id).rsplit("::", 1)[-1], "|".join(w)[:40], k, _tag(cfg)),
+                       "the router sends the mutating command %s to a shard (line %s) and afterwards another command (line %s) whose failure it reports "
+                       "to the client: the first mutation stands (or is undone inexactly) although the command answered an error"
+                       % ("/".join(w), t1["ln"], t2["ln"]), f.where(t2["ln"]))
+                k += 1
+    ck.check(n >= 3, "R17.7", "router-functions-scanned" + _tag(cfg), "only %d ShardedActorState functions with shard sends were found" % n, None,
+             detail="%d functions of ShardedActorState send commands to shards; none builds a mutating command and sends again afterwards" % n)
